@@ -7,4 +7,4 @@ INVARIANT ConventionsAgree
 INVARIANT OriginalIffRestored
 INVARIANT NonCallableAsIs
 INVARIANT Export
-PROPERTY RestoreStep
+PROPERTY ReactivationReplaces
